@@ -44,7 +44,7 @@ def run_case(ctx, n):
   nv = ctx.nviol
   H.stdlib_datetime = Clock
   try:
-    r = qcheck.run_qcase(ctx, n, ('C21',), live=True, long_run=rng.random() < 0.1)
+    r = qcheck.run_qcase(ctx, n, ('C21',), with_queries=n % 2 == 0, live=True, long_run=rng.random() < 0.1)
   finally:
     H.stdlib_datetime = saved
   ctx.count('clock_' + Clock.mode)
